@@ -229,7 +229,7 @@ def r5b_unification_leaves(run, F):
     declaration, assignment and argument) may only recurse into themselves and use `==`.  The alias-aware `equals`
     (char8 ~ u8, used by the documented array-to-view coercions) must not leak into them."""
     allowed = {
-        "alpha::value_type::ValueType::is_like": {"alpha::value_type::ValueType::is_like"},
+        "alpha::value_type::ValueType::is_like": {"alpha::value_type::ValueType::is_like", "alpha::value_type::ValueType::can_be_concretization_of"},
         "alpha::value_type::ValueType::can_be_concretization_of": {"alpha::value_type::ValueType::can_be_concretization_of", "alpha::value_type::ValueType::is_like"},
     }
     for fn, ok_callees in allowed.items():
